@@ -1083,6 +1083,9 @@ def main(argv=None):
     own.ownership_check(ck, "C12", backends=("memory",), have_driver=have_driver,
                         n_random=(100 if ck.tier == "quick" else 4000))
     own_violations, ck.violations = ck.violations, saved      # reported after the query streams' own findings
+    from . import theap2           # filter_keyvals_regex as a heap program (Props/C12transforms.v), tie A with aliasing
+    if "C12" in theap2.GROUPS:
+        theap2.heap_check(ck, "C12", have_driver=theap2.prepare(ck, "C12"))
     for backend, p in procs.items():
         out, err = p.communicate(timeout=3000)
         if p.returncode != 0:
@@ -1102,8 +1105,12 @@ def main(argv=None):
             ck.disagreement("query-reads", desc, replay)
     ck.violations += own_violations[:max(0, 20 - len(ck.violations))]
     ck.assumptions += [
-        "PARTIAL: builtins_confined (a built-in touches only what its arguments reach, plus fresh objects) is a hypothesis "
-        "about Python's reference semantics, not proved per built-in; supported by the static scan and by the spy on the storage object",
+        "builtins_confined (a built-in touches only what its arguments reach, plus fresh objects) is a hypothesis of "
+        "C12_store_unchanged; it is PROVED for every function registered in aw_query/functions.py as a heap-level program "
+        "(Props/C12transforms.v: C12_transform_builtins_confined, C12_store_unchanged_transforms; filter_keyvals_regex "
+        "included since Model/FilterRegexHeap.v). PARTIAL in that the heap programs are tied to the code by correspondence "
+        "(harness/theap.py, theap2.py; filter_keyvals_regex in this check), not by construction; supported by the static "
+        "scan and by the spy on the storage object",
         "oracle hypothesis parse_inverts_isoformat: iso8601.parse_date(x.isoformat()) == x for aware datetimes; validated on every "
         "generated window (whole-minute UTC offsets)",
         "Bucket.get's int(us / 1000) float division is modelled as integer division (C13_int_div_1000 is the finite fact)",
